@@ -440,6 +440,121 @@ theorem isJsonNumber_text (l : Lit) (hs : l.strict) : isJsonNumber l.text = true
   · exact absurd h hnp
 
 
+/-! ### recogniser soundness: every `isJsonNumber` text is a strict `Lit` -/
+
+theorem allDigits_takeWhile (l : Str) : allDigits (l.takeWhile Char.isDigit) = true := by
+  induction l with
+  | nil => rfl
+  | cons c t ih =>
+    by_cases h : c.isDigit = true
+    · simp [List.takeWhile_cons, h, allDigits_cons, ih]
+    · simp [List.takeWhile_cons, h, allDigits]
+
+theorem jsonIntRest_sound (r r1 : Str) (h : jsonIntRest r = some r1) :
+    ∃ ip, allDigits ip = true ∧ (ip = ['0'] ∨ ∃ c t, ip = c :: t ∧ c ≠ '0') ∧ r = ip ++ r1 := by
+  unfold jsonIntRest at h
+  split at h
+  · simp only [Option.some.injEq] at h; subst h
+    exact ⟨['0'], by decide, Or.inl rfl, rfl⟩
+  · rename_i c t hne
+    split at h
+    · rename_i hc
+      simp only [Option.some.injEq] at h; subst h
+      refine ⟨c :: t.takeWhile Char.isDigit, ?_, Or.inr ⟨c, _, rfl, ?_⟩, ?_⟩
+      · rw [allDigits_cons, hc, allDigits_takeWhile]; rfl
+      · intro e; subst e; exact hne rfl
+      · simp [List.takeWhile_append_dropWhile]
+    · exact absurd h (by simp)
+  · exact absurd h (by simp)
+
+theorem jsonFracRest_sound (r1 r2 : Str) (h : jsonFracRest r1 = some r2) :
+    ∃ frac : Option Str, (match frac with
+        | some f => allDigits f = true ∧ f ≠ []
+        | none => True) ∧
+      r1 = (match frac with
+        | some f => '.' :: f
+        | none => []) ++ r2 := by
+  unfold jsonFracRest at h
+  split at h
+  · rename_i t
+    split at h
+    · exact absurd h (by simp)
+    · rename_i hne
+      simp only [Option.some.injEq] at h; subst h
+      refine ⟨some (t.takeWhile Char.isDigit), ⟨allDigits_takeWhile t, ?_⟩, ?_⟩
+      · intro e; rw [e] at hne; simp at hne
+      · simp [List.takeWhile_append_dropWhile]
+  · simp only [Option.some.injEq] at h; subst h
+    exact ⟨none, trivial, rfl⟩
+
+theorem jsonExpEnd_sound (r2 : Str) (h : jsonExpEnd r2 = true) :
+    ∃ exp : Option (Char × Str × Str), (match exp with
+        | some (m, s, d) => (m = 'e' ∨ m = 'E') ∧ isSignStr s ∧ allDigits d = true ∧ d ≠ []
+        | none => True) ∧
+      r2 = (match exp with
+        | some (m, s, d) => m :: (s ++ d)
+        | none => []) := by
+  unfold jsonExpEnd at h
+  split at h
+  · exact ⟨none, trivial, rfl⟩
+  · rename_i c r
+    split at h
+    · rename_i hm
+      have hm' : c = 'e' ∨ c = 'E' := by simpa using hm
+      simp only [Bool.and_eq_true, Bool.not_eq_true'] at h
+      split at h
+      · rename_i t
+        refine ⟨some (c, ['+'], t), ⟨hm', Or.inr (Or.inr rfl), h.2, ?_⟩, rfl⟩
+        intro e; rw [e] at h; simp at h
+      · rename_i t
+        refine ⟨some (c, ['-'], t), ⟨hm', Or.inr (Or.inl rfl), h.2, ?_⟩, rfl⟩
+        intro e; rw [e] at h; simp at h
+      · refine ⟨some (c, [], r), ⟨hm', Or.inl rfl, h.2, ?_⟩, rfl⟩
+        intro e; rw [e] at h; simp at h
+    · exact absurd h (by simp)
+
+theorem isJsonBody_sound (r : Str) (h : isJsonBody r = true) :
+    ∃ l : Lit, l.sign = [] ∧ l.strict ∧ l.text = r := by
+  unfold isJsonBody at h
+  split at h
+  · exact absurd h (by simp)
+  · rename_i r1 h1
+    split at h
+    · exact absurd h (by simp)
+    · rename_i r2 h2
+      obtain ⟨ip, hip, hint, hr⟩ := jsonIntRest_sound r r1 h1
+      obtain ⟨frac, hfrac, hr1⟩ := jsonFracRest_sound r1 r2 h2
+      obtain ⟨exp, hexp, hr2⟩ := jsonExpEnd_sound r2 h
+      refine ⟨⟨[], ip, frac, exp⟩, rfl, ?_, ?_⟩
+      · exact
+          { sign := Or.inl rfl
+            ip := hip
+            frac := by
+              cases frac with
+              | none => simp only; rcases hint with h | ⟨c, t, h, _⟩ <;> rw [h] <;> simp
+              | some f => exact hfrac
+            exp := hexp
+            noPlus := by simp
+            int := hint }
+      · rw [hr, hr1, hr2]
+        cases frac <;> cases exp <;> simp [Lit.text, Lit.fracText, Lit.expText]
+
+/-- Soundness of the RFC 8259 recogniser w.r.t. the generative grammar: every text it accepts is
+the text of a strict literal (the converse is `isJsonNumber_text`). -/
+theorem isJsonNumber_sound (s : Str) (h : isJsonNumber s = true) : ∃ l : Lit, l.strict ∧ l.text = s := by
+  unfold isJsonNumber at h
+  unfold dropMinus at h
+  split at h
+  · rename_i t
+    obtain ⟨l, hs, hst, ht⟩ := isJsonBody_sound t h
+    refine ⟨⟨['-'], l.ip, l.frac, l.exp⟩, ?_, ?_⟩
+    · exact { sign := Or.inr (Or.inl rfl), ip := hst.ip, frac := hst.frac, exp := hst.exp,
+              noPlus := by simp, int := hst.int }
+    · rw [← ht]; simp [Lit.text, hs, Lit.fracText, Lit.expText]
+  · obtain ⟨l, _, hst, ht⟩ := isJsonBody_sound _ h
+    exact ⟨l, hst, ht⟩
+
+
 /-! ### membership / splitting facts for digit strings -/
 
 theorem not_mem_of_allDigits {c : Char} (hc : c.isDigit = false) :
